@@ -779,6 +779,109 @@ func runRand(c *mon.Case) {
 }
 
 // countEnds records which shapes ends mode met (by the rule, reading 0).
+// runShared: alignments whose rows share storage. Public operations create them: Sample / Append hand row buffers
+// on without copying (two rows of one alignment then are the same bytes), AddSequenceChar stores the caller's
+// slice (rows may be overlapping windows of one buffer). Cleaning must still be the selection of the kept columns.
+func runShared(c *mon.Case) {
+	r := c.R
+	aa := r.Bool()
+	rows, mix, target := genAlignment(r, aa)
+	if len(rows) < 2 || len(rows[0].Seq) < 2 {
+		rows = mkRows([]string{"AC-GT-A", "A--GTCA", "TC-GNCA"})
+		aa = false
+	}
+	var a align.Alignment
+	kind := r.Intn(2)
+	if kind == 0 {
+		// the alignment plus a sample of its own rows appended to it (renamed, same buffers)
+		a = h.MkAlign(rows, alphaOf(aa))
+		smp, err := a.Sample(r.Range(1, len(rows)))
+		if err != nil {
+			return
+		}
+		if err = a.Append(smp); err != nil {
+			return
+		}
+	} else {
+		// rows are overlapping windows of one buffer
+		L := len(rows[0].Seq)
+		step := r.Range(1, L)
+		buf := make([]byte, step*(len(rows)-1)+L)
+		for i := range buf {
+			buf[i] = rows[i%len(rows)].Seq[(i/len(rows))%L]
+		}
+		a = align.NewAlign(alphaOf(aa))
+		for i := range rows {
+			if err := a.AddSequenceChar(rows[i].Name, buf[i*step:i*step+L], ""); err != nil {
+				return
+			}
+		}
+	}
+	before := h.Snap(a)
+	seqs := seqsOf(before)
+	var o cleanOpts
+	switch r.Intn(3) {
+	case 0:
+		o = cleanOpts{Chars: genChars(r, mix, target, aa), Ends: r.Bool(), IgnCase: r.Bool(), IgnGaps: r.Bool(), IgnNs: r.Bool(), Reverse: r.Chance(0.3)}
+	case 1:
+		o = cleanOpts{Maj: true, Ends: r.Bool(), IgnGaps: r.Bool(), IgnNs: r.Bool()}
+	default:
+		o = cleanOpts{Chars: "-", Ends: r.Bool()}
+	}
+	o.Cutoff = genCutoff(r, columns(seqs), aa, &o)
+	c.Input(map[string]interface{}{"rows": before, "aa": aa, "opts": o, "storage": []string{"sample-appended", "overlapping-windows"}[kind]})
+	st := doSitesOn(c, a, before, aa, o, false)
+	c.Count(fmt.Sprintf("shared-storage:kind:%d", kind))
+	if st.nonTrivial() {
+		c.NonTrivial("shared", before.Key(), optKey(&o))
+	}
+}
+
+// runDeep: alignments with more than 65536 sequences (counters narrower than int would wrap).
+func runDeep(c *mon.Case) {
+	r := c.R
+	aa := r.Bool()
+	n := 65536 + r.Range(1, 3000)
+	major, minor := byte('A'), byte('C')
+	if aa {
+		major, minor = 'L', 'K'
+	}
+	// column 0: a few minority residues only; column 1: exactly one half / one half; column 2: gaps for more than 65536 rows; column 3: all the same
+	k0 := r.Range(1, 600)
+	ngap := 65536 + r.Range(0, n-65536-1)
+	rows := make(gen.Rows, n)
+	for i := range rows {
+		b := []byte{major, major, major, major}
+		if i < k0 {
+			b[0] = minor
+		}
+		if i%2 == 1 {
+			b[1] = minor
+		}
+		if i < ngap {
+			b[2] = '-'
+		}
+		rows[i] = gen.Seq{Name: "r" + gen.Itoa(i), Seq: string(b)}
+	}
+	var o cleanOpts
+	switch c.Idx % 4 {
+	case 0:
+		o = cleanOpts{Maj: true, Cutoff: r.PickF([]float64{0.5, 0.75, 0.9})}
+	case 1:
+		o = cleanOpts{Chars: "-", Cutoff: r.PickF([]float64{0.5, 0.9, 0.25})}
+	case 2:
+		o = cleanOpts{Chars: string(minor), Cutoff: 0.5, IgnGaps: true}
+	default:
+		o = cleanOpts{Maj: true, Cutoff: 0.99, IgnGaps: true}
+	}
+	c.Input(map[string]interface{}{"rows": n, "columns": fmt.Sprintf("col0: %d x %c, rest %c; col1: alternating; col2: %d gaps; col3: all %c", k0, minor, major, ngap, major), "aa": aa, "opts": o})
+	a := h.MkAlign(rows, alphaOf(aa))
+	st := doSitesOn(c, a, rows, aa, o, false)
+	_ = st
+	c.Count("deep-alignments")
+	c.NonTrivial("deep", fmt.Sprint(n, k0, ngap, aa), optKey(&o))
+}
+
 func countEnds(c *mon.Case, cols []string, aa bool, o *cleanOpts) {
 	vs := verdictsOf(cols, aa, o, 0, nil)
 	q := make([]bool, len(vs))
@@ -968,7 +1071,7 @@ func main() {
 	// 16 shards x 16 GC workers only fight each other
 	runtime.GOMAXPROCS(2)
 	debug.SetGCPercent(400)
-	mon.SetNote("rule", "exh-sites / exh-maj: for each alphabet (nt symbols A a C - N n, aa symbols A a L - X x) and each height 1..5, ALL 6^h columns (shuffled; one alignment, or many alignments of 1..7 columns in ends mode) x all 2^5 option sets x 10 character sets x cutoffs {0,1/8,1/4,1/2,3/4,1,-1,2}; exh-seqs: ALL rows of length 1..5 likewise x 2^3 option sets x 7 characters; rand: random alignments (1..12 rows x 0..60 columns, 8 residue mixes per alphabet with both cases, IUPAC codes, * ? ., hostile names, runs of columns and rows of similar density of the target character, columns with exact k/n fractions) on which the five operations are called with random option sets and a cutoff that is dyadic, outside [0,1], decimal, or exactly the fraction of one column / row of that alignment, plus a second cleaning chained on the result; cli: the same through `goalign clean sites|seqs` (fasta in, fasta + --positions + --positions-rm + the counts on stderr out). Every call is checked against the reference rule of ref.go: kept/removed partition, result = selection of the kept columns (names, order), Length/NbSequences, leading/trailing counts, removal iff the cutoff is met, ends mode = maximal qualifying prefix and suffix. Non-trivial = at least one unit exactly at the cutoff or an active ignore option that excludes at least one character; distinct = (alignment, option sets) resp. (alphabet, height, option set) for the exhaustive cases.")
+	mon.SetNote("rule", "exh-sites / exh-maj: for each alphabet (nt symbols A a C - N n, aa symbols A a L - X x) and each height 1..5, ALL 6^h columns (shuffled; one alignment, or many alignments of 1..7 columns in ends mode) x all 2^5 option sets x 10 character sets x cutoffs {0,1/8,1/4,1/2,3/4,1,-1,2}; exh-seqs: ALL rows of length 1..5 likewise x 2^3 option sets x 7 characters; rand: random alignments (1..12 rows x 0..60 columns, 8 residue mixes per alphabet with both cases, IUPAC codes, * ? ., hostile names, runs of columns and rows of similar density of the target character, columns with exact k/n fractions) on which the five operations are called with random option sets and a cutoff that is dyadic, outside [0,1], decimal, or exactly the fraction of one column / row of that alignment, plus a second cleaning chained on the result; shared: alignments whose rows share storage (a sample of the rows appended to the alignment itself; rows given as overlapping windows of one buffer through AddSequenceChar); deep: alignments of 65537..68536 rows x 4 columns (a counter narrower than int would wrap); cli: the same through `goalign clean sites|seqs` (fasta in, fasta + --positions + --positions-rm + the counts on stderr out). Every call is checked against the reference rule of ref.go: kept/removed partition, result = selection of the kept columns (names, order), Length/NbSequences, leading/trailing counts, removal iff the cutoff is met, ends mode = maximal qualifying prefix and suffix. Non-trivial = at least one unit exactly at the cutoff or an active ignore option that excludes at least one character; distinct = (alignment, option sets) resp. (alphabet, height, option set) for the exhaustive cases.")
 	mon.SetNote("assumptions", "lenient (i): a column / row whose non excluded total is 0 (0/0) may be kept or removed;; lenient (ii): when an excluded character is itself matching (e.g. --reverse with --ignore-gaps) the numerator may or may not count the excluded characters, but one of the two readings must explain the whole call;; a decimal cutoff within 1e-9 of the fraction may go either way (binary representation of the cutoff), exact ties are tested with dyadic cutoffs only;; majority character = most frequent non excluded character with case folded (MaxCharStats documents upper-casing by example only; the design fixes this reading);; when every column qualifies in ends mode both the leading and the trailing count are the alignment length;; the alignment is NUCLEOTIDS or AMINOACIDS (the statement speaks of the alignment's own alphabet; BOTH/UNKNOWN are not driven);; Length() of an alignment emptied by a Seqs call is not checked (goalign reports -1 for empty);; cli: combinations the command refuses with an explicit error (--ignore-gaps with a set containing '-', --ignore-n with a set containing N/n) are accepted as refusals; --reverse / --ignore-case are not passed with GAP / MAJ (documented as not functional)")
 	mon.SetNote("exhaustive_subspaces", "all columns of height 1..5 over 6 symbols (9330 per alphabet) x 32 option sets x 10 character sets x 8 cutoffs for RemoveCharacterSites; x 8 option sets x 8 cutoffs for RemoveMajorityCharacterSites; all rows of length 1..5 x 8 option sets x 7 characters x 8 cutoffs for RemoveCharacterSeqs; the wrappers RemoveGapSites / RemoveGapSeqs on the matching slices; enumerated completely at both tiers; thorough tier adds all 46656 columns of height 6 per alphabet for RemoveCharacterSites")
 	for bits := 0; bits < 32; bits++ {
@@ -997,6 +1100,9 @@ func main() {
 	mon.Floor("exhaustive:columns-enumerated", 1000000)
 	mon.Floor("t:exhaustive:height-6", nExhSitesH6)
 	mon.Floor("exhaustive:rows-enumerated", 1000000)
+	mon.Floor("deep-alignments", 16)
+	mon.Floor("shared-storage:kind:0", 1000)
+	mon.Floor("shared-storage:kind:1", 1000)
 	mon.Floor("cli:sites", 100)
 	mon.Floor("cli:seqs", 50)
 	mon.Main("C12", []mon.Sub{
@@ -1006,6 +1112,8 @@ func main() {
 		{Name: "exh-seqs", Quick: nExhSeqs, Thorough: nExhSeqs, Run: runExhSeqs},
 		{Name: "exh-sites-h6", Quick: 0, Thorough: nExhSitesH6, Run: runExhSitesH6},
 		{Name: "rand", Quick: 300000, Thorough: 8000000, Run: runRand},
+		{Name: "shared", Quick: 20000, Thorough: 400000, Run: runShared},
+		{Name: "deep", Quick: 16, Thorough: 160, Run: runDeep},
 		{Name: "cli", Quick: 320, Thorough: 3000, Serial: true, Run: runCli},
 	})
 }
